@@ -34,7 +34,7 @@ func init() {
 	})
 	Generators["C10"] = func(t *rapid.T, tier string) any {
 		if gen.Chance(t, "wide", 8) {
-			return wideQueryCase(t)
+			return wideCase(t)
 		}
 		k := gen.DefaultKnobs()
 		k.PBalanceOrigin = 55
@@ -86,6 +86,50 @@ func wideQueryCase(t *rapid.T) *gen.ExecCase {
 	}
 	ec.Script.Stmts = []*gen.Stmt{st}
 	return ec
+}
+
+// wideSplitCase: many balance-limited accounts spread over two to five sends (every
+// statement names few of them, the script as a whole many): what is fetched for the whole
+// script is more than what any part of it needs.
+func wideSplitCase(t *rapid.T) *gen.ExecCase {
+	n := 9 + gen.Uniform(t, "wides.n", 32)
+	k := 2 + gen.Uniform(t, "wides.k", 4)
+	ec := &gen.ExecCase{Script: &gen.Script{}, Vars: map[string]string{}, Balances: map[string]map[string]string{}}
+	srcs := make([]*gen.Src, k)
+	totals := make([]int, k)
+	for i := range srcs {
+		srcs[i] = &gen.Src{Kind: gen.SInorder}
+	}
+	for i := 0; i < n; i++ {
+		name := fmt.Sprintf("acc%02d", i)
+		b := 1 + gen.Uniform(t, "wides.bal", 9)
+		ec.Balances[name] = map[string]string{"USD": fmt.Sprint(b)}
+		j := i % k
+		if i >= k {
+			j = gen.Uniform(t, "wides.stmt", k)
+		}
+		totals[j] += b
+		srcs[j].Subs = append(srcs[j].Subs, &gen.Src{Kind: gen.SAcct, Addr: gen.Acct(name)})
+	}
+	for j := range srcs {
+		// the last statement always has a fallback, so that a wrong balance shows as another
+		// posting list rather than only as a failure
+		src := srcs[j]
+		if gen.Chance(t, "wides.world", 50) {
+			src = &gen.Src{Kind: gen.SInorder, Subs: append(append([]*gen.Src{}, srcs[j].Subs...), &gen.Src{Kind: gen.SAcct, Addr: gen.Acct("world")})}
+		}
+		st := &gen.Stmt{Kind: gen.StSend, Sent: gen.Mon(gen.Asset("USD"), gen.NumI(int64(totals[j]))), Src: src, Dst: &gen.Dst{Kind: gen.DAcct, Addr: gen.Acct("dest")}}
+		ec.Script.Stmts = append(ec.Script.Stmts, st)
+	}
+	return ec
+}
+
+// wideCase: one of the two wide shapes.
+func wideCase(t *rapid.T) *gen.ExecCase {
+	if gen.Chance(t, "wide.split", 50) {
+		return wideSplitCase(t)
+	}
+	return wideQueryCase(t)
 }
 
 func staticStore(ec *gen.ExecCase) numscript.StaticStore {
@@ -196,6 +240,9 @@ func init() {
 		Assumptions: []string{"the race detector reports unsynchronised conflicting accesses that occur in a run, whatever their timing; execution takes no locks, so a shared write on an executed path is reported"},
 	})
 	Generators["C11"] = func(t *rapid.T, tier string) any {
+		if gen.Chance(t, "c11.wide", 6) {
+			return wideCase(t)
+		}
 		k := gen.DefaultKnobs()
 		k.PBalanceOrigin = 35
 		k.PWorldOddPlaces = 8
